@@ -31,6 +31,10 @@ func main() {
 	case "gen":
 		sd, _ := strconv.ParseUint(os.Args[3], 10, 64)
 		fmt.Print(c03.DevGen(os.Args[2], sd, os.Args[4]))
+	case "witness":
+		fmt.Print(c03.DevWitness(os.Args[2]))
+	case "corpus":
+		fmt.Print(c03.DevCorpus())
 	case "plain":
 		fmt.Print(c03.DevPlain(os.Args[2]))
 	case "mutants":
